@@ -85,6 +85,11 @@ def partial_traffic(rng, name, kv, vr, allow_fn=True, fn_registered=False):
         lines += ["%s limit 5000" % name, "%s setfn 64" % name, "%s pull 300 d100 d100 f" % name, "%s pull 10" % name]   # failure -> sticky error
     else:
         lines += ["%s limit 3000" % name, "%s feed 700 100 0" % name, "%s proc 0 0 0 0 50" % name]                 # flush requested mid-way
+    if vr and rng.chance(.6):
+        # the variable-rate engine's ratio is moved during the history (soxr_set_io_ratio): soxr_clear must go back to the ratio of creation
+        for _ in range(1 + rng.below(3)):
+            at = 1 + rng.below(len(lines)) if lines else 0
+            lines.insert(at, "%s ratio %.6f %d" % (name, ratio * rng.choice([.25, .5, .7, .9]), rng.choice([0, 0, 100, 1000])))
     reg = [int(l.split()[2]) for l in lines if l.split()[1] == "setfn"]
     return lines, (reg[-1] if reg else None)
 
